@@ -20,7 +20,7 @@ def deep_messages(c, k, maxoptslots=10):
     return sorted(c.rng.sample(idx, min(k, len(idx))))
 
 
-def mc_codec(c, maxopt, shards=None, timeout=1500, workers=None, liveness=True, deep=()):
+def mc_codec(c, maxopt, shards=None, timeout=1500, workers=None, liveness=True, deep=(), coverage=False):
     """stage A + B in one TLC run per shard of the message range: invariants of the decoder machine and of
     the codec laws are checked on every path of the generator tree while each complete input is printed."""
     sd = c.spec_dir("mc-codec")
@@ -45,7 +45,7 @@ def mc_codec(c, maxopt, shards=None, timeout=1500, workers=None, liveness=True, 
         jobs.append(name)
     w = workers or max(2, NCPU // max(1, min(len(jobs), 8)))
     with ThreadPoolExecutor(max_workers=min(len(jobs), 8)) as ex:
-        results = list(ex.map(lambda n: c.tlc(sd, "MC_Codec", n, workers=w, timeout=timeout, xmx="6g"), jobs))
+        results = list(ex.map(lambda n: c.tlc(sd, "MC_Codec", n, workers=w, timeout=timeout, xmx="6g", coverage=coverage and "deep" not in n), jobs))
     for name, res in zip(jobs, results):
         if res.rc == 124: raise Infra("MC_Codec timed out (%s)" % name)
         if not res.clean:
@@ -53,6 +53,12 @@ def mc_codec(c, maxopt, shards=None, timeout=1500, workers=None, liveness=True, 
         c.cov["states"] += res.distinct; c.cov["transitions"] += res.generated
         c.cov["stage_a"].append(dict(config="%s MaxOpt=%d" % (name, maxopt), generated=res.generated, distinct=res.distinct, wall_s=round(res.wall, 1),
                                      invariants="DTypeOK DProgress DPosOK DAllocBound DAgrees GrammarAgrees WantRecovered RoundTrip ReEncode" + (" + PROPERTY Terminates" if liveness else "")))
+        if coverage and "deep" not in name:
+            vac, zer = coverage_report(res.out)
+            c.cov["stage_a"][-1]["vacuous_actions"] = vac
+            c.cov["stage_a"][-1]["never_evaluated_expressions"] = len(zer)
+            c.cov["stage_a"][-1]["never_evaluated_sample"] = zer[:8]
+            if vac: c.note("stage A %s: actions never taken: %s" % (name, ", ".join(vac)))
         for ln in res.printed:
             if ln.startswith('"{'):
                 g = json.loads(json.loads(ln))
